@@ -58,8 +58,9 @@ class _TwistedInputDescriptor(FileDescriptor):
     def fileno(self) -> int:
         return self._fileno
 
-    def doRead(self):
-        return self.cb()
+    def doRead(self) -> None:
+        # the reactor treats a true return value as a reason for losing the connection
+        self.cb()
 
     def getHost(self):
         raise NotImplementedError("No network operation expected")
